@@ -113,10 +113,12 @@ def check(ctx, case):
             ctx.count()   # one evaluation = one exported function called on one argument vector
             try:
                 interp.run(case.prog, f.name, args, gl, step_limit=5000)
+            except (TypeError, KeyError, AttributeError):
+                pass   # a spelling the reference interpreter does not model: the VM decides alone
             except OutOfDomain as e:
                 # an intermediate leaves 32 bit, a division by zero ...: outside the property's domain.  The sign
                 # convention of % is NOT a reason to skip: here the VM itself is the reference.
-                if e.reason not in ("negative-mod", "float-mod"):
+                if e.reason not in ("negative-mod", "float-mod", "non-finite", "negative->uint", "float->int conversion", "conversion"):
                     ctx.discard("outside-domain:" + e.reason)
                     continue
             vm = adapter.new_vm(program)
@@ -181,7 +183,34 @@ def check(ctx, case):
 M_VOID = ("void",)
 
 
+class WholeCase:
+    """a program of the scalar core / call-graph generators presented to the same check: the backend must refuse
+    it or agree on every exported function with scalar parameters"""
+    kind = "whole-language"
+
+    def __init__(self, inner):
+        self.inner = inner
+        self.prog = inner.prog
+        scalar = all(t[0] == "s" for t, _ in inner.prog.funcs[-1].params) and inner.prog.funcs[-1].ret[0] in ("s", "void")
+        self.all_inputs = {f.name: [] for f in inner.prog.funcs}
+        if scalar:
+            self.all_inputs[inner.entry] = [(a, g) for a, g in inner.inputs]
+
+    def source(self):
+        return self.inner.source()
+
+    def show(self):
+        return self.inner.show() if hasattr(self.inner, "show") else self.source()
+
+
+def whole_strategy():
+    from hypothesis import strategies as st
+    from .. import gen, genx
+    return st.one_of(gen.core_case(n_inputs=2), genx.calls_case(n_inputs=2)).map(WholeCase)
+
+
 def run(R):
+    R.hyp("whole-language", whole_strategy, check, examples=R.pick(40, 1500))
     R.hyp("subset", genwasm.subset_case(), check, examples=R.pick(200, 4000))
     R.hyp("near-miss", genwasm.nearmiss_case(), check, examples=R.pick(80, 1500))
     R.require("executed", 200)
